@@ -318,8 +318,11 @@ func TestC36(t *testing.T) {
 	r.Assume("handlers do not set framing fields, CR/LF in values, an empty Content-Type, or trailers; they do not hijack or panic")
 	r.Assume("ConvertRequest: requests that either parser rejects are skipped and counted; Host (promoted to Request.Host by net/http) and Transfer-Encoding are excluded from the header multiset; Content-Length and Connection (framing / hop-by-hop; fasthttp synthesises `Content-Length: 0` and, for HTTP/1.0, `Connection: close`) are counted but not judged; repeated fasthttp single-valued request headers (Host, Content-Type, User-Agent, Content-Length, Cookie) and malformed cookies are not generated")
 
+	t0 := time.Now()
 	runPrograms(r)
+	t1 := time.Now()
 	runRequests(r)
+	r.Set("phase_seconds", map[string]float64{"programs": t1.Sub(t0).Seconds(), "requests": time.Since(t1).Seconds()})
 }
 
 func runPrograms(r *mon.Run) {
